@@ -7,6 +7,7 @@ import (
 	"encoding/json"
 	"fmt"
 	"os"
+	"runtime/debug"
 	"strings"
 	"testing"
 	"time"
@@ -89,6 +90,9 @@ type c20In struct {
 func c20Decode(tok []byte) (ev *psatoken.Evidence, err error) {
 	defer func() {
 		if r := recover(); r != nil {
+			if !strings.Contains(string(debug.Stack()), "PanickyP2Claims") {
+				panic(r) // the library's own panic: not an error return (and C05's business)
+			}
 			ev, err = nil, fmt.Errorf("panic reached the caller: %v", r)
 		}
 	}()
@@ -98,6 +102,9 @@ func c20Decode(tok []byte) (ev *psatoken.Evidence, err error) {
 func c20Unmarshal(ev *psatoken.Evidence, tok []byte) (err error) {
 	defer func() {
 		if r := recover(); r != nil {
+			if !strings.Contains(string(debug.Stack()), "PanickyP2Claims") {
+				panic(r)
+			}
 			err = fmt.Errorf("panic reached the caller: %v", r)
 		}
 	}()
@@ -115,7 +122,18 @@ const c20Patience = 20 * time.Second
 var c20Kind = registerKind("c20", func(in c20In) string {
 	for attempt := 0; ; attempt++ {
 		done := make(chan string, 1)
-		go func() { done <- c20Judge(in) }()
+		go func() {
+			defer func() {
+				if r := recover(); r != nil {
+					st := string(debug.Stack())
+					if i := strings.Index(st, "panic("); i > 0 {
+						st = st[i:]
+					}
+					done <- fmt.Sprintf("decoding PANICS instead of rejecting the envelope with an error: %v  (%s)\n%s", r, in.Desc, truncate(st, 1200))
+				}
+			}()
+			done <- c20Judge(in)
+		}()
 		select {
 		case msg := <-done:
 			return msg
@@ -245,6 +263,11 @@ func TestC20_EnvelopeGrid(t *testing.T) {
 	run := func(desc, class string, tok []byte, nontrivial bool) {
 		in := c20In{desc, tok}
 		msg := c20Kind(in)
+		if msg != "" {
+			st.Case("", "violation", class)
+			reportCase(t, "C20", "c20", in, msg)
+			return
+		}
 		_, err := c20Decode(tok)
 		out := "rejected"
 		if err == nil {
